@@ -37,7 +37,7 @@
 From Coq Require Import List NArith.
 From ApiFu Require Import Base.Sexp Vld.Ast Vld.Inspect Vld.TypeInfoModel Vld.TypeInfoPure Vld.ValidatorModel Vld.ValidSpec
      Vld.Hyps Vld.ProofsCommon Vld.ProofsDirectives Vld.ProofsArguments Vld.ProofsFragDecl Vld.ProofsValues
-     Vld.ProofsCycles Vld.ProofsVarsOrder Vld.ProofsOrder Vld.ProofsOperations Vld.ProofsTotal Vld.Enumerate Vld.ProofsFields Vld.ValidatorProofs Vld.Witness.
+     Vld.ProofsCycles Vld.ProofsVarsOrder Vld.ProofsOrder Vld.ProofsOperations Vld.ProofsTotal Vld.Enumerate Vld.ProofsFields Vld.ProofsMemo Vld.ValidatorProofs Vld.Witness.
 Import ListNotations.
 
 (** ** determinism: acceptance is a function of schema, features and document alone *)
@@ -61,6 +61,21 @@ Theorem C04_verdict_deterministic : forall pi1 pi2 S F D,
   (validate_model repaired pi1 S F D = Done [] /\ validate_model repaired pi2 S F D = Done []) \/
   (exists e1 l1 e2 l2, validate_model repaired pi1 S F D = Done (e1 :: l1) /\ validate_model repaired pi2 S F D = Done (e2 :: l2)).
 Proof. exact validate_verdict_order. Qed.
+
+(** ** the checked-pairs memo of the overlapping-fields pass (repair 92e8fdd)
+    [validate_model_memo] is ValidateDocument as it is on the current tree; [validate_model] is the
+    same pipeline with the overlapping-fields pass without the two sets of checked pairs (the
+    algorithm the other theorems of this file speak about).  Proved: the memoised validator is
+    total, and it accepts whatever the plain one accepts (every check it makes, the plain one makes
+    too).  NOT proved: the converse (the memo never hides a conflict) — it needs the acyclicity of
+    the fragment graph that the spread rule establishes; the check compares the two on every case
+    (mismatch memo-changes-model-verdict). *)
+Theorem C04_validate_memo_no_panic : forall pi S F D,
+  order_ok pi -> exists errs, validate_model_memo repaired pi S F D = Done errs.
+Proof. exact validate_memo_no_panic. Qed.
+Theorem C04_memo_accepts_what_plain_accepts_partial : forall q pi S F D,
+  validate_model q pi S F D = Done [] -> validate_model_memo q pi S F D = Done [].
+Proof. exact validate_memo_accepts. Qed.
 
 (** ** the pipeline *)
 (** NewTypeInfo never indexes an empty scope stack *)
@@ -215,9 +230,17 @@ Theorem C04_refuted_before_fix_nil_argument :
   exists q S F D, q_nil_arg q = false /\ validate_model q id_order S F D = Panic PNilArgument.
 Proof. exact panic_before_fix_4. Qed.
 
+(** row 30 (validator half): a spread possible only through an implementation the request cannot see *)
+Theorem C04_refuted_before_fix_impl_features :
+  exists q S F D, q_impl_features q = false /\ valid_5_5_2_3 S F D = false /\ validate_model q id_order S F D = Done [].
+Proof. exact accepted_violation_before_fix_30. Qed.
+
+Print Assumptions C04_refuted_before_fix_impl_features.
 Print Assumptions C04_accept_deterministic.
 Print Assumptions C04_validate_no_panic.
 Print Assumptions C04_verdict_deterministic.
+Print Assumptions C04_validate_memo_no_panic.
+Print Assumptions C04_memo_accepts_what_plain_accepts_partial.
 Print Assumptions C04_type_info_total.
 Print Assumptions C04_accepted_iff_rules_silent.
 Print Assumptions C04_all_rules_silent.
